@@ -59,7 +59,9 @@ RULE_ADDED = (
               'the keys as spelled in the file. '
               ' '
               'Round 17: one more key under another spelling (h / H markers, leading zero, uppe'
-              'r-case M) of a listed path. ')
+              'r-case M) of a listed path. '
+              ' '
+              'Round 19: roots of trust that expired two seconds before the verification. ')
 RULE = RULE + " " + RULE_ADDED.strip()
 ASSUMPTIONS = [
     "stdout of the commands is parsed by label ('UD value:', 'Hash:', ...)",
@@ -629,7 +631,7 @@ def sgx_case(acc, rng, variant, tmpdir, case):
     elif variant == "root-expired":
         root_cert = g2.make_cert("root", m.root_key.public_key(), "root", m.root_key,
                                  window=rng.choice(["expired", "expired_recently",
-                                                    "valid_soon"]))
+                                                    "valid_soon", "expired_seconds_ago"]))
         expect_ok = False
     elif variant == "flip-quote-signature":
         e = [x for x in doc["elements"] if x["name"] == "quote"][0]
